@@ -20,6 +20,8 @@ func init() {
 				clChecksumOperands(c)
 				clReaderVersionAndSingleStream(c)
 				clAssembleTable(c)
+				clSkiplistNextAdvancesOnce(c)
+				clTerminatorAlways(c)
 			})
 			c.Do("C05.e", "L2 restored count source and verification", 8, func() { clRestoredCount(c); clVerificationPrecedesAcceptance(c); clRestoreItemSize(c) })
 		},
